@@ -22,6 +22,8 @@ type lsOpts struct {
 	DbRes bool `json:"db_resource,omitempty"`
 	// PoRes serves templates and menu labels through resource.PoResource (gettext catalogues on disk).
 	PoRes bool `json:"po_resource,omitempty"`
+	// First gives the engine a first function (engine.WithFirst) that does nothing.
+	First bool `json:"first_function,omitempty"`
 	Cfg   engine.Config
 }
 
@@ -73,6 +75,11 @@ func lockstep(a *app.App, o lsOpts, inputs []string, visit func(k int, rv *ref.V
 // lockstepEnv is lockstep with an answer oracle shared by the implementation's and the reference's
 // environment (external-function answers as choice points).
 func lockstepEnv(a *app.App, o lsOpts, inputs []string, pick func(label string, n int) int, visit func(k int, rv *ref.VM, got app.Resp, want ref.Resp)) (sig, msg string, reqs int) {
+	if o.First && !a.First {
+		b := *a
+		b.First = true
+		a = &b
+	}
 	s, cleanup := openBackend(a, o)
 	defer cleanup()
 	if o.DbRes {
